@@ -649,6 +649,23 @@ fn bytes_input(r: &Rec) -> Vec<u8> {
             }
         }
     }
+    // a second malformation (adjacent invalid sequences, invalid bytes in the middle)
+    match r.b(7) % 8 {
+        0 => v.insert(pick(r.u16(12), v.len() + 1), 0xFF),
+        1 => {
+            let i = pick(r.u16(12), v.len() + 1);
+            v.insert(i, 0xFE);
+            v.insert(i, 0xFF);
+        }
+        2 => {
+            let i = pick(r.u16(12), v.len() + 1);
+            for (k, b) in [0xF0u8, 0x80, 0x80, 0x80].iter().enumerate() {
+                v.insert(i + k, *b);
+            }
+        }
+        3 => v.insert(0, 0xBF),
+        _ => {}
+    }
     v
 }
 
@@ -712,6 +729,31 @@ fn ctor_checks<'b, 'a>(st: &mut St, a: Sh<'b, 'a>, r: &Rec) {
             let std_ok = std::str::from_utf8(&b).is_ok();
             if !std_ok {
                 st.class("malformed_input");
+            }
+            if r.b(9) & 1 == 1 {
+                // the fixed-capacity twin
+                let mut fv = match bump_scope::FixedBumpVec::<u8>::try_with_capacity_in(b.len() + r.b(10) as usize % 4, a) {
+                    Ok(f) => f,
+                    Err(_) => return,
+                };
+                let _ = fv.try_extend_from_slice_copy(&b);
+                drop(v);
+                match FixedBumpString::from_utf8(fv) {
+                    Ok(s) => {
+                        if !std_ok || s.as_bytes() != b.as_slice() {
+                            st.fail("C09/from-utf8", format!("FixedBumpString::{what}: accepted invalid UTF-8 or changed the bytes"));
+                        }
+                    }
+                    Err(e) => {
+                        if std_ok {
+                            st.fail("C09/from-utf8", format!("FixedBumpString::{what}: rejected valid UTF-8"));
+                        }
+                        if e.into_bytes()[..] != b[..] {
+                            st.fail("C09/from-utf8", format!("FixedBumpString::{what}: the error does not give the bytes back"));
+                        }
+                    }
+                }
+                return;
             }
             match BumpString::from_utf8(v) {
                 Ok(s) => {
@@ -918,8 +960,102 @@ fn run_mut<'a>(st: &mut St, arena: &mut (dyn MutBumpAllocatorCoreScope<'a> + 'a)
         let fin = r0.b(7) % 4;
         st.note(|| format!("MutBumpString::from_str_in({init:?}) ops {n_ops} finalise {fin}"));
         let a = &mut *arena;
-        let Ok(mut s) = MutBumpString::try_from_str_in(&init, a) else { continue };
-        let mut m = init.clone();
+        // creation: from a str, or through MutBumpString's own decoders (separate code from BumpString's)
+        let (mut s, mut m) = match r0.b(9) % 6 {
+            0 | 1 => {
+                let b = bytes_input(&r0);
+                if std::str::from_utf8(&b).is_err() {
+                    st.class("malformed_input");
+                }
+                let what = format!("MutBumpString::from_utf8_lossy_in({b:x?})");
+                st.note(|| what.clone());
+                let Ok(s) = MutBumpString::try_from_utf8_lossy_in(&b, a) else { continue };
+                let exp = String::from_utf8_lossy(&b).into_owned();
+                utf8_ok(st, s.as_bytes(), &what);
+                if s.as_str() != exp {
+                    st.fail("C09/lossy", format!("{what}: {:?} != std {exp:?}", s.as_str()));
+                    return;
+                }
+                (s, exp)
+            }
+            2 => {
+                let u = u16_input(&r0);
+                let what = format!("MutBumpString::from_utf16_lossy_in({u:x?})");
+                st.note(|| what.clone());
+                if String::from_utf16(&u).is_err() {
+                    st.class("malformed_input");
+                }
+                let Ok(s) = MutBumpString::try_from_utf16_lossy_in(&u, a) else { continue };
+                let exp = String::from_utf16_lossy(&u);
+                utf8_ok(st, s.as_bytes(), &what);
+                if s.as_str() != exp {
+                    st.fail("C09/utf16", format!("{what}: lossy {:?} != std {exp:?}", s.as_str()));
+                    return;
+                }
+                (s, exp)
+            }
+            3 => {
+                let u = u16_input(&r0);
+                let what = format!("MutBumpString::from_utf16_in({u:x?})");
+                st.note(|| what.clone());
+                let std_r = String::from_utf16(&u);
+                if std_r.is_err() {
+                    st.class("malformed_input");
+                }
+                let Ok(res) = MutBumpString::try_from_utf16_in(&u, a) else { continue };
+                match (res, std_r) {
+                    (Ok(s), Ok(e)) => {
+                        if s.as_str() != e {
+                            st.fail("C09/utf16", format!("{what}: {:?} != std {e:?}", s.as_str()));
+                            return;
+                        }
+                        (s, e)
+                    }
+                    (Err(_), Err(_)) => continue,
+                    (Ok(s), Err(_)) => {
+                        st.fail("C09/utf16", format!("{what}: accepted invalid UTF-16 as {:?}", s.as_str()));
+                        return;
+                    }
+                    (Err(_), Ok(_)) => {
+                        st.fail("C09/utf16", format!("{what}: rejected valid UTF-16"));
+                        return;
+                    }
+                }
+            }
+            4 => {
+                let b = bytes_input(&r0);
+                let what = format!("MutBumpString::from_utf8(MutBumpVec {b:x?})");
+                st.note(|| what.clone());
+                let Ok(v) = bump_scope::MutBumpVec::try_from_owned_slice_in(b.clone(), a) else { continue };
+                let std_ok = std::str::from_utf8(&b).is_ok();
+                if !std_ok {
+                    st.class("malformed_input");
+                }
+                match MutBumpString::from_utf8(v) {
+                    Ok(s) => {
+                        if !std_ok || s.as_bytes() != b.as_slice() {
+                            st.fail("C09/from-utf8", format!("{what}: accepted invalid UTF-8 or changed the bytes"));
+                            return;
+                        }
+                        let m = s.as_str().to_string();
+                        (s, m)
+                    }
+                    Err(e) => {
+                        if std_ok {
+                            st.fail("C09/from-utf8", format!("{what}: rejected valid UTF-8"));
+                        }
+                        if e.into_bytes()[..] != b[..] {
+                            st.fail("C09/from-utf8", format!("{what}: the error does not give the bytes back"));
+                        }
+                        continue;
+                    }
+                }
+            }
+            _ => {
+                let Ok(s) = MutBumpString::try_from_str_in(&init, a) else { continue };
+                (s, init.clone())
+            }
+        };
         for _ in 0..n_ops {
             if st.pos >= st.recs.len() || st.stop {
                 break;
